@@ -315,15 +315,15 @@ def gen(repo) -> str:
              "  [ " + "\n  , ".join("(%s, %s)" % (lean_string(n), "true" if ok else "false") for n, ok in cells),
              "  ]",
              "",
-             "/-- `importCells` (below): first-use cells whose object is made by the import machinery – whether the function",
-             "    obtains the module it keeps only from `__import__` / `import_module` calls (per-module import lock) and never",
-             "    reads `sys.modules`.  `lruEntryCells`: the entries of the bounded collection, which `get_template` reads without",
-             "    the mutex – whether `LRUCache.__setitem__` inserts only `_Item(key, value)` objects that carry the value -/",
+             "/-- the entries of the bounded collection, which `get_template` reads without the mutex: whether",
+             "    `LRUCache.__setitem__` inserts only `_Item(key, value)` objects built from its own `value` argument (the entry",
+             "    carries its value when it becomes visible) -/",
              "def lruEntryCells : List (String × Bool) :=",
              "  [ " + "\n  , ".join("(%s, %s)" % (lean_string(n), "true" if ok else "false") for n, ok in lru_cells),
              "  ]",
              "",
-             "/-- (see the comment above `lruEntryCells`) -/",
+             "/-- first-use cells whose object is made by the import machinery: whether the function obtains the module it",
+             "    keeps only from `__import__` / `import_module` calls (per-module import lock) and never reads `sys.modules` -/",
              "def importCells : List (String × Bool) :=",
              "  [ " + "\n  , ".join("(%s, %s)" % (lean_string(n), "true" if ok else "false") for n, ok in import_cells),
              "  ]",
